@@ -54,7 +54,10 @@ def launch(d, root, idx, lines, clock=None):
     outp = os.path.join(d, "out.%d" % idx)
     env = dict(C.ENV)
     env.update({"KSHIM_ROOT": root, "KSHIM_LOG": logp, "TMPDIR": os.path.join(root, "systmp"), "LD_PRELOAD": C.KSHIM,
-                "KGATE_OUT": str(w_out), "KGATE_IN": str(r_in)})
+                "KGATE_OUT": str(w_out), "KGATE_IN": str(r_in),
+                # every participant reports the same process id: processes in different PID namespaces
+                # (containers sharing a cache volume: everybody is pid 1) are a legitimate environment
+                "KSHIM_PID": "1"})
     if clock:
         env["KSHIM_CLOCK"] = "%d:%d" % clock
     text = "\n".join(("root " + root) if l.startswith("root") else l for l in lines) + "\n"
